@@ -81,14 +81,7 @@ def scenario(rng, kind):
         if kind == "down":
             # the connection's transport is lost while calls are in progress or queued: every one of them still
             # returns (its remaining attempts are silent), none waits for ever
-            proto = sc.spa._protocol
-            orig_lost = proto.connection_lost
-
-            def lost(exc):
-                orig_lost(exc)
-                from .. import vloop as _vl
-                sc.ev.append({"k": "down", "t": ms(s.loop.time()), "_n": next(_vl.SEQ)})
-            proto.connection_lost = lost
+            pass            # (the engine scenario logs the loss of the transport itself)
         if not kind.startswith("gate") and kind != "overlap":
             net.s2c = s2c
         n_calls = rng.choice([1, 2, 3, 5, 8]) if kind != "active-lossy" else 1
@@ -96,7 +89,7 @@ def scenario(rng, kind):
             n_calls = rng.choice([1, 2, 3])
         if kind == "down":
             n_calls = rng.choice([2, 3, 5, 8])
-            s.loop.call_later(rng.choice([0.0, 0.12, 0.3]) * n_calls, sc.tr.close)
+            close_after = rng.randrange(1, n_calls + 1)        # the transport goes right after this many calls started
         live = consts()          # the table in force while the calls run
         if kind in ("gate", "gate-active"):
             # the spa stops answering: after 2 x ping frequency the freshness gate closes
@@ -143,6 +136,12 @@ def scenario(rng, kind):
             for i in range(n_calls):
                 name, api = rng.choice(sc.apis())
                 sc.start_call(api, gated=True)
+                if kind == "down":
+                    s.advance(rng.choice([0, 0, 0.05]))
+                    if i + 1 == close_after:
+                        sc.tr.close()
+                        s.advance(rng.choice([0, 0.05]))
+                    continue
                 s.advance(0 if kind == "overlap" else rng.choice([0, 0, 0.05, 0.13, 0.5, 2.0]))
             # let every call finish (worst case R x (T + P))
             c = consts()
@@ -223,7 +222,7 @@ def run(ctx):
                           {"matched": k, "of": len(lg["ev"]), "event": e, "before": lg["ev"][max(0, k - 14):k]})
     nd = 0
     for lg in logs:
-        if lg["kind"] == "down":
+        if any(e["k"] == "down" for e in lg["ev"]):
             active = set()
             for e in lg["ev"]:
                 if e["k"] == "call":
